@@ -88,6 +88,8 @@ pub struct Rec {
     pub via: Option<(Side, Flavour)>,
     /// decisions taken while the op ran
     pub steps: u32,
+    /// decisions taken by the calling task itself while the op ran
+    pub own: u32,
 }
 
 pub struct SimWaker {
@@ -262,6 +264,7 @@ impl<P: Payload> TaskCtx<P> {
             repoll: None,
             via: None,
             steps: rt::steps() as u32,
+            own: rt::exec::own_steps() as u32,
         });
         l.inflight[self.tid].rec = Some(r);
         l.inflight[self.tid].wakers.clear();
@@ -283,6 +286,7 @@ impl<P: Payload> TaskCtx<P> {
         rec.opt = opt;
         rec.polls = polls;
         rec.steps = (rt::steps() as u32).wrapping_sub(rec.steps);
+        rec.own = (rt::exec::own_steps() as u32).wrapping_sub(rec.own);
         for (id, st) in pl {
             if (id == rt::probe::PUSH_SEND || id == rt::probe::PUSH_RECV) && rec.reg.is_none() {
                 rec.reg = Some(st);
